@@ -480,7 +480,10 @@ class StepHash:
         for env_var, value in sorted(env_values.items()):
             hw.update(env_var)
             hw.update(value)
-        hw.update("__env_overrides__")
+        # With overrides, the section is opened by a bytes word, which cannot be mistaken for the
+        # name of an environment variable. Without overrides, the str word is kept, so that the
+        # digests of steps without overrides do not change: there it is the last word.
+        hw.update(b"__env_overrides__" if env_overrides else "__env_overrides__")
         for name, value in sorted(env_overrides.items()):
             hw.update(name)
             hw.update(value)
